@@ -200,12 +200,14 @@ static void do_update(char **t, int nt) {
     ssize_t hl = zck_get_header_length(tgt);
     if(hl < 0 || (size_t)hl > Blen) goto out;
     if((size_t)hl > want) {
+        /* as dl_bytes(): remember where the library stopped reading, append the download, go back there */
+        off_t resume = real_lseek(tf, 0, SEEK_CUR);
+        if(resume < (off_t)zck_get_lead_length(tgt)) resume = zck_get_lead_length(tgt);
         real_lseek(tf, want, SEEK_SET);
         zck_dl_reset(dl);
         zh_log("{\"i\":%d,\"ev\":\"hdr_request\",\"ranges\":\"%zu-%zd\"}", opi, want, hl - 1);
         if(!feed_frag(dl, B + want, hl - want, frag, 1)) goto out;
-        /* as dl_bytes(): seek back to `start` only when something was fetched */
-        real_lseek(tf, zck_get_lead_length(tgt), SEEK_SET);
+        real_lseek(tf, resume, SEEK_SET);
     }
     if(!zck_read_header(tgt)) goto out;
     stage = "find_valid";
